@@ -18,9 +18,11 @@ LEVEL_TEXT = ("Proof + correspondence: the denotation of regular expressions, th
               "Every representation is mirrored and proved to denote den r for every expression: Regex.to_epsilon_nfa (pyformlang's counter-based "
               "Thompson construction), Regex.accepts (that construction followed by the acceptance loop), Regex.to_cfg (one variable per node; its rule "
               "templates are regenerated from the source on every build), str(). What pyformlang returns is compared STRUCTURALLY with these mirrors on "
-              "every generated expression (states and transitions; variables and productions; token sequence of str()). pyformlang's own text parser and "
-              "tokeniser are not mirrored: the tree they build is compared with the reference parser's on generated texts (minimal, redundant and doubled "
-              "parentheses, all spacings, both operator spellings, escapes), and ill-formed text must raise MisformedRegexError and nothing else.")
+              "every generated expression (states and transitions; variables and productions; token sequence of str()). pyformlang's own text parser is "
+              "mirrored at component level (outer-parenthesis stripping, _compute_precedence, split and recursion, refusals) and the tree it builds is "
+              "compared exactly with the mirror's and, by certified language equivalence, with the reference parser's on generated texts (minimal, "
+              "redundant and doubled parentheses, all spacings, both operator spellings, escapes); ill-formed text must raise MisformedRegexError and "
+              "nothing else, exactly where the mirror does. No theorem relates the mirror to the reference parser; the tokeniser is not modelled.")
 LEVEL_NOTE = "Trusted: Coq kernel; the reference parser as the reading of the documented grammar; Python harness (renders token lists to text)."
 RULE = ("generated expressions (depth <= 4; symbols of 1-3 characters, escaped operators, epsilon and $; both spellings of union and concatenation; minimal, "
         "redundant and doubled parentheses; with and without blanks around operators) + ill-formed texts (unbalanced, dangling or doubled operators, "
@@ -87,6 +89,13 @@ def to_text(rng, toks):
     return out
 
 
+def _plain_tokens(text):
+    """components of a text made of one-character operators, "epsilon", "$" and plain symbols (what the ill-formed texts are made of)"""
+    for ch in "()*|+.":
+        text = text.replace(ch, " " + ch + " ")
+    return text.split()
+
+
 def malformed(rng):
     base = ["(", ")", "*", "|", "+", ".", "a", "b", "epsilon"]
     k = rng.choice(["unbalanced", "dangling", "empty_group", "leading_star", "random"])
@@ -107,7 +116,8 @@ def generate(ctx):
     cases = []
     for i in range(n):
         if i % 8 == 7:
-            cases.append({"op": "malformed", "text": malformed(rng)})
+            text = malformed(rng)
+            cases.append({"op": "malformed", "text": text, "toks": _plain_tokens(text)})
             continue
         ast = rand_ast(rng, rng.randint(1, 4))
         toks = render(rng, ast)
@@ -273,11 +283,26 @@ def check_cases(ctx, cases):
                 TH = "false"
             # the token sequence of str(regex) against the model pr_py applied to pyformlang's own tree
             ST = "toks_same (pr_py %s) %s" % (T, _coq_toks(_str_tokens(o["str"]), sym))
-            lines.append("Eval vm_compute in (match %s with Some r => Some (judge_re2 r %s, judge (renumber (re_fa r)) %s, map (re_matches r) %s, %s, %s, %s, %s) | None => None end)." % (
-                ref, T, E, ws, ("judge_re2 r %s" % TS) if TS else "VFuel", CG, TH, ST))
+            # the mirror of pyformlang's own parser (component level) builds exactly the tree pyformlang built
+            # ... which is also, exactly, the tree the proved reference parser builds (r)
+            RD = "reader_agrees %s (Some %s) && reader_agrees %s (Some r)" % (_coq_toks(c["toks"], sym), T, _coq_toks(c["toks"], sym)) if c["op"] == "parse" else "true"
+            lines.append("Eval vm_compute in (match %s with Some r => Some (judge_re2 r %s, judge (renumber (re_fa r)) %s, map (re_matches r) %s, %s, %s, %s, %s, %s) | None => None end)." % (
+                ref, T, E, ws, ("judge_re2 r %s" % TS) if TS else "VFuel", CG, TH, ST, RD))
             keep.append(i)
         srcs.append("From PFL Require Import Eval.FA.\n" + "\n".join(lines) + "\n")
         idxs.append(keep)
+    # ill-formed texts: the mirror of pyformlang's parser must refuse (MisformedRegexError) / accept exactly as pyformlang does
+    mal = [i for i, c in enumerate(cases) if c["op"] == "malformed" and "toks" in c and ("refused" in obs[i] or "tree" in obs[i])]
+    mal_lines = []
+    for i in mal:
+        sym = falib.Interner()
+        try:
+            exp = "(Some %s)" % fa_engine.coq_re(obs[i]["tree"], sym) if "tree" in obs[i] else "None"
+        except ValueError:
+            exp = None
+        mal_lines.append("Eval vm_compute in (reader_agrees %s %s)." % (_coq_toks(cases[i]["toks"], sym), exp) if exp else "Eval vm_compute in true.")
+    mal_vals = ctx.coq(["From PFL Require Import Eval.FA.\n" + "\n".join(mal_lines) + "\n"])[0] if mal else []
+    mal_ok = dict(zip(mal, mal_vals))
     outs = ctx.coq(srcs)
     mvs = {}
     for keep, vals in zip(idxs, outs):
@@ -297,6 +322,10 @@ def check_cases(ctx, cases):
         if c["op"] == "malformed":
             if "error" in o:
                 ctx.fail("malformed-wrong-exception", c, {"impl": o})
+            elif mal_ok.get(i) is False:
+                ctx.fail("parser-mirror", c, {"impl": o}, correspondence_only=True)
+            elif i in mal_ok:
+                ctx.dist["ill-formed text: refusal / acceptance as the mirror of the parser predicts"] += 1
             continue
         if i not in mvs:
             ctx.fail("parse-tree-shape", c, {"tree": o.get("tree")})
@@ -307,7 +336,7 @@ def check_cases(ctx, cases):
         if o.get("operand_after") != o.get("operand_fresh"):
             ctx.fail("combine-changes-operand", c, {"after": o.get("operand_after"), "fresh": o.get("operand_fresh")})
             continue
-        jt, je, bits, js, cg, thm, strm = mv[1]
+        jt, je, bits, js, cg, thm, strm, rdm = mv[1]
         if jt != "VEq":
             ctx.fail("parse-tree-language", c, {"verdict": str(jt), "tree": o["tree"]})
         elif je != "VEq":
@@ -327,6 +356,8 @@ def check_cases(ctx, cases):
             ctx.fail("to_epsilon_nfa-model", c, {"impl": o["enfa"], "tree": o["tree"]}, correspondence_only=True)
         elif strm is not True:
             ctx.fail("str-model", c, {"str": o["str"], "tree": o["tree"]}, correspondence_only=True)
+        elif rdm is not True:
+            ctx.fail("parser-mirror", c, {"tree": o["tree"]}, correspondence_only=True)
         else:
             ctx.dist["to_cfg, to_epsilon_nfa and str() structurally identical to the proved models"] += 1
 
